@@ -9,6 +9,12 @@ import vf
 
 SPECDIR = os.path.join(vf.SPEC, "serde")
 
+META = dict(
+    technique="TLA+ refinement model of ReadAdapter checked by TLC + TLC-generated operation sequences (one per model transition, plus simulated long behaviours) replayed on the real adapter",
+    text="TLC explores the code-shaped model of the adapter against the abstract reader exhaustively at small scope (contents <= 7 bytes, 6 chunk patterns, <= 4 operations, plus a scaled capacity/compaction instance) and the real ReadAdapter is driven through every distinct transition of that state graph and through simulated 40-operation behaviours over 200-700 byte contents; expected results come only from the abstract reader of the specification.",
+    note="Assumes the underlying Read returns at least one byte until the stream ends and never errors; bounds as stated; memory safety is observed (panics, wrong bytes), not proved.",
+    design="7/C27")
+
 
 def signature(d):
     det = d["detail"]
